@@ -9,7 +9,7 @@ SPEC = {
     # second harness package: the dispatcher half (HandlePacket on a fresh connection of a full server stack)
     "extra_harness": [{"pkg": "c05d", "shims": {"adapter": "internal/protocol/adapter"}, "runs": [{"args": [], "corpus": "disp"}]}],
     "strip_obs": r" alloc \d+",
-    "skip_model_prefix": ["rawbig", "loop"],
+    "skip_model_prefix": ["rawbig", "loop", "retain"],
     "rule": ("hostile byte streams fed to the real ReadPacket under recover + watchdog + TotalAlloc delta: every type byte, "
              "adversarial length fields, truncation of valid streams at every offset, structure-aware mutations, random "
              "bytes, gzip members with extreme expansion ratios (zero-filled and JSON-shaped); non-trivial = stream longer "
